@@ -18,6 +18,7 @@ def run(prog, rep):
     r_io.run_append(prog, rep)
     r_io.run_calibration(prog, rep)
     r_io.run_create(prog, rep)
+    r_io.run_strio(prog, rep)
     r_null.run_strings(prog, rep)
     r_safe.run_narrow(prog, rep)
     r_safe.run_buf(prog, rep)
